@@ -23,6 +23,8 @@ struct C02Plan
   int burst;           // additional scheduled closures in one burst
   int interleave;      // 1: create all items first, then run the consumer scripts round-robin
   int reinit_threads;  // >0: initTaskingSystem(n) again while tasks may still be queued or running
+  int sporadic;        // fire-and-forget tasks handed over one at a time with idle gaps (workers go to sleep in between)
+  int sporadic_idle[6];
 };
 extern "C" {
 const C02Plan *c02_plan();
@@ -39,6 +41,7 @@ void c02_destroy_end(int id);
 void c02_tracked_ctor(const void *p);
 void c02_tracked_dtor(const void *p);
 void c02_tracked_assign(const void *p);
-void c02_drain();                            // fair phase: wait (without doing anything) until every task has run
+void c02_drain();
+void c02_wait_one(int id);                   // fair phase: wait (doing nothing) until function id has run                            // fair phase: wait (without doing anything) until every task has run
 void c02_run();
 }
